@@ -156,4 +156,11 @@ theorem drain_some {σ α : Type} (next : σ → Res (σ × Option α)) (n : Nat
     (h : next s = ok (s', some a)) (hl : drain next n s' = ok l) : drain next (n + 1) s = ok (a :: l) := by
   simp [drain, h, hl]
 
+/-- `map.get(k).copied()` on a `vec_map::VecMap<V>` given by its entries (genpm: `BOM::delta`): the value stored under
+key `k`.  The entry list is the abstract content of the map (at most one entry per key in a real `VecMap`; with several,
+the first counts). -/
+def vecMapGet {α : Type} : List (Nat × α) → Nat → Option α
+  | [], _ => none
+  | (b, v) :: l, k => if b = k then some v else vecMapGet l k
+
 end RbV.Rs
